@@ -7,6 +7,7 @@
 package verifrt
 
 import (
+	"syscall"
 	_ "crypto/sha256"
 	_ "crypto/sha512"
 	"encoding/json"
@@ -284,6 +285,12 @@ func TempDir() string {
 	tempDirs = append(tempDirs, d)
 	mu.Unlock()
 	return d
+}
+// Umask returns the file-mode creation mask in force (the file-system model uses 022).
+func Umask() int {
+	m := syscall.Umask(0)
+	syscall.Umask(m)
+	return m
 }
 func CrashPoint()         {}
 func AfterCrash(f func()) { afterCrash = f }
